@@ -79,6 +79,22 @@ PROPS = {
         level_text="C05_match_no_panic: for every tree whose nodes satisfy the index invariant idx_ok and every path/params, matching never faults (with fuel >= height); C05_build_indexes_ok / C05_sort_node_idx_ok: every index the code builds satisfies idx_ok. Every Go fault site of the modelled code is an explicit Panic result in the model, compared with the implementation's recover() classification.",
         level_note="partial: idx_ok is proved for every freshly built index but its preservation through the whole-tree update functions is checked at run time (state dump), not proved; net/http glue is exercised only.",
         partial=["C05_serve_total over histories not proved"]),
+    "C06": {"kind": "conc", "scenario": "c06", "props": ["C06", "ConcGeneric"],
+        "quick": {"seconds": 4, "seeds": 1}, "thorough": {"seconds": 60, "seeds": 5},
+        "rule": "3 writer goroutines toggling 7 routes (Handle/Remove, incl. registrations that split and re-merge the nodes of the 4 untouched routes) x 6 reader goroutines (ServeHTTP on untouched and toggled routes, OPTIONS, Routes(), strict URL) on a WithLock(true) router, in a subprocess built with -race; every response checked for admissibility",
+        "level_text": "C06_race_free (generic, all schedules of any number of threads over a reader/writer lock: threads that follow the discipline never race), C06_ok_concat / C06_well_started_of_summaries / C06_access_only_inside_region, and - re-proved on every run against Gen/LockFacts.v regenerated from /repo by tools/srcfacts - C06_current_tree_discipline, C06_current_tree_memo_discipline, C06_current_tree_race_free: every entry point a user goroutine can reach touches routing state only inside one critical section of Tree.locker (writes inside an exclusive one).",
+        "level_note": "partial by nature: the theorem is about the lock protocol extracted syntactically from the source (may-write analysis, package-local inlining); Go's memory model and sync.RWMutex are trusted; linearizability of responses ('one the router could have produced sequentially') is checked only by the stress run's admissibility predicate; aliasing through user closures is what the race detector run is for.",
+        "partial": ["serializability of responses not proved (stress run only)"],
+        "trust": ["tools/srcfacts (go/ast + go/types translator: lock regions, field read/write classification)", "sync.RWMutex, the Go memory model and the race detector"],
+        "assumptions": ["deadlock freedom is not claimed"]},
+    "C07": {"kind": "conc", "scenario": "c07", "props": ["C07"],
+        "quick": {"seconds": 4, "seeds": 1}, "thorough": {"seconds": 60, "seeds": 5},
+        "rule": "3 goroutines each building, mutating and serving their own Router/Hosts/Group while 8 goroutines serve one frozen router (no lock), each request checking its own parameters (pooled contexts); then fresh-router answers compared before/after unrelated activity; subprocess built with -race",
+        "level_text": "Re-proved on every run against Gen/GlobalFacts.v and Gen/LockFacts.v regenerated from /repo: C07_globals_benign (every package-level variable of the library is constant after init, a sync.Pool, a mutex, or only touched inside its mutex), C07_memo_discipline (the rendered-method-set memo is accessed under its mutex in every method), C07_quiescent_readonly (serving entry points never write routing state); C07_pool_fresh (a pooled context always starts empty, all histories).",
+        "level_note": "partial by nature: instance isolation = no shared mutable state (generated inventory) + per-instance functional model (tied to the code by the other suites' correspondence) + the stress run; sync.Pool and the memory model are trusted.",
+        "partial": ["isolation of observable answers across instances is not a theorem about the Go code (model has no cross-instance state by construction)"],
+        "trust": ["tools/srcfacts (package-level variable inventory and write sites)", "sync.Pool, sync.RWMutex, the Go memory model and the race detector"],
+        "assumptions": []},
     "C08": rt(300, 5000, ["script"],
         "add/remove histories of GET/POST/HEAD/OPTIONS/TRACE/BOGUS on three patterns; after every step HEAD/GET/OPTIONS probes and a random handler script (0-6 events: Set/Add/Del header, WriteHeader, Write 0/1/2/13/1000) run under GET and HEAD on a non-sniffing writer",
         props=["C08head", "C17"],
